@@ -20,6 +20,8 @@ CLAIMS = {
          "TLC action property + trace validation (functional)"),
  "C06": ("model_checking", "operational plan semantics (spec/Hfsm.tla UpdatePlan/DeepUpdatePlans) validated step by step against the executor: plan callbacks, task lists, success/failure marks, requests issued by plans; open finding D9 handled by a deviation switch", "4 C06",
          "resynchronising trace validation (functional oracle) with deviation switch"),
+ "C07": ("model_checking", "plans as per-region task sequences under a machine-wide capacity (spec/Hfsm.tla ApplyOp plan_append/plan_clear/plan_remove/plan_sweep): the iterated contents, the results of append (refused at capacity, nothing changes), removal during iteration and clearing are compared step by step with the executor; TLA+ monitors (spec/Trace.tla PlanStorage) walk the raw taskBounds/taskLinks/tasks arrays read through the probe: acyclic doubly linked lists inside the pool, slot contents = iteration, pairwise disjoint, lengths adding up to tasks.count(), unlinked slots clean", "4 C07",
+         "resynchronising trace validation (functional oracle) + storage monitors"),
  "C09": ("model_checking", "functional equality of previousTransitions and transition targets of every executed step with the operational specification", "4 C09",
          "resynchronising trace validation (functional oracle)"),
  "C13": ("model_checking", "functional equality of isActive/activeSubState/isResumable/isScheduled/isPending* answers after every call and inside guards, plus idle monitors; open finding D10", "4 C13",
